@@ -215,8 +215,22 @@ def os_isdir(it, a, k):
     return VBool(z3.Select(get(it, key, "sub"), parts[1].t))
 
 
+def shutil_rmtree(it, a, k):
+    p = a[0]
+    parts = getattr(p, "parts", None)
+    it.path.effects.append(("Rmtree", p))
+    if parts is not None:
+        key = dir_state(it, parts[0].t)
+        sub = get(it, key, "sub")
+        if not it.path.branch(z3.Select(sub, parts[1].t)):
+            it.raise_builtin("FileNotFoundError")
+        put(it, key, "sub", z3.Store(sub, parts[1].t, z3.BoolVal(False)))
+    return NONE
+
+
 def install(reg):
     E = reg.externals
+    E["shutil.rmtree"] = VNative(shutil_rmtree, "shutil.rmtree")
     reg.externals["builtins.open"] = VNative(bi_open, "open")
     E["os.unlink"] = VNative(os_unlink, "os.unlink")
     E["os.replace"] = VNative(os_replace, "os.replace")
